@@ -382,14 +382,12 @@ def focus_shared_failure(draw, program, var):
                         if n != inp and sum(1 for nodes in lazy if n in nodes) >= 2)
     if not shared:
         return False
-    nid = draw(st.sampled_from(shared))
+    idx = S.node_index(program)
+    hard = [n for n in shared if not idx[n].get('use_default')]
+    nid = draw(st.sampled_from(hard or shared))
     beh = var['nodes'].setdefault(nid, {})
     beh['outcomes'] = []
     beh['tail'] = 'ErrA'
-    node = S.node_index(program)[nid]
-    if draw(st.booleans()):
-        node['use_default'] = False
-        node['attempts'] = None
     var['focus_fail'] = nid
     return True
 
@@ -410,7 +408,8 @@ def schedules(draw, program=None, max_tape=48):
     ranks = {}
     for nid in ids:
         ranks[nid] = draw(st.integers(0, 9))
-    return {'kind': 'rank', 'ranks': ranks, 'timer': draw(st.integers(0, 9))}
+    return {'kind': 'rank', 'ranks': ranks, 'timer': draw(st.integers(0, 9)),
+            'default': draw(st.sampled_from([0, 5, 50]))}
 
 
 @st.composite
